@@ -7,7 +7,8 @@ import), all start states that satisfy the stated invariant, and all Go map iter
 are statements about the model `importModule` / `runScripts` (Model.lean), which the correspondence
 run ties to the Go code.  Helper lemmas and the invariants live in Proofs.lean.
 -/
-import GPy.C19.Proofs
+import GPy.C19.Refine
+import GPy.C19.Generated
 namespace GPy.C19
 
 /-- **Termination** (DESIGN: `import_terminates`).  With fuel `fuelFor env` = number of loadable
@@ -229,5 +230,207 @@ example : (exRun.globalsOf 0).get "m0" = some (.mod 1) ∧ (exRun.globalsOf 0).g
 /-- hypotheses of `star_binds_exactly` / `missing_is_importerror` are satisfiable -/
 example : ∃ st', importStar exEnv [("x", .int 1), ("_p", .int 2)] 0 exRun = (st', none) := ⟨_, rfl⟩
 example : exRun.store.get "nosuch" = none ∧ exEnv.goMods.get "nosuch" = none ∧ ∀ d ∈ exEnv.dirs, d.get "nosuch" = none := by decide
+
+/-! ## Round 2: the model refines the reference interpreter; fuel; frame of `import *`; regenerated order -/
+
+/-- **The model refines the spec** (DESIGN: `model_refines_spec`), outside known finding C19-K01.
+For EVERY environment (any Go modules, directories, files, bodies), every Go-map iteration order
+that keeps the key set, every fuel, every list of scripts in which no import statement names a
+dotted module (`undotted`, the complement of `kfDotted`), started from ANY pair of related states
+(in particular the empty context): the model's import machinery (store, register-before-run,
+un-registration on failure, IMPORT_NAME / IMPORT_FROM / IMPORT_STAR on insertion-ordered maps) and
+the reference interpreter of Spec.lean (sys.modules semantics on sorted namespaces, declarative
+star import) end in related states – same store, same module objects with the same names and the
+same namespaces as finite maps, the same trace event by event (ghost events included) – and return
+the same result for every script.  Excluded: cases inside `kfDotted` (see `model_refines_spec_witness`). -/
+theorem model_refines_spec_partial (env : Env) (hord : ∀ l k, k ∈ env.ord l ↔ k ∈ l) (fuel : Nat)
+    (scripts : List Body) (hkf : kfDotted env scripts = false) (i : Nat) (st : St) (s : Spec.S) (h : Sim st s) :
+    Sim (runScripts env fuel scripts i st).1 (Spec.runScripts env fuel scripts i s).1 ∧
+    (runScripts env fuel scripts i st).2 = (Spec.runScripts env fuel scripts i s).2 := by
+  have hu : undotted env scripts = true := by simpa [kfDotted] using hkf
+  obtain ⟨henv, hsc⟩ := envOK_of_undotted env scripts hu
+  exact runScripts_sim env hord henv fuel scripts i st s hsc h
+
+/-- … hence the two OBSERVABLES the correspondence run compares (`modelV` and `specV` of the
+generator: the rendered log with object identities, the script results and the final store with
+every namespace) are equal for every case outside C19-K01 – what round 1 measured per case. -/
+theorem model_observable_eq_spec_partial (env : Env) (hord : ∀ l k, k ∈ env.ord l ↔ k ∈ l) (fuel : Nat)
+    (scripts : List Body) (hkf : kfDotted env scripts = false) :
+    let m := runScripts env fuel scripts 0 {}
+    let sp := Spec.runScripts env fuel scripts 0 {}
+    renderRun m.1.trace m.1.heap m.1.store m.2 = renderRun sp.1.trace sp.1.objs sp.1.sysModules sp.2 := by
+  intro m sp
+  have h := model_refines_spec_partial env hord fuel scripts hkf 0 {} {} sim_empty
+  show renderRun m.1.trace m.1.heap m.1.store m.2 = _
+  rw [show m.2 = sp.2 from h.2]
+  exact renderRun_congr h.1 _
+
+/-- … and the final per-module namespaces agree name by name, the stores are equal -/
+theorem final_namespaces_eq_spec_partial (env : Env) (hord : ∀ l k, k ∈ env.ord l ↔ k ∈ l) (fuel : Nat)
+    (scripts : List Body) (hkf : kfDotted env scripts = false) (id : Nat) (k : String) :
+    ((runScripts env fuel scripts 0 {}).1.globalsOf id).get k = ((Spec.runScripts env fuel scripts 0 {}).1.ns id).get k ∧
+    (runScripts env fuel scripts 0 {}).1.store = (Spec.runScripts env fuel scripts 0 {}).1.sysModules :=
+  let h := model_refines_spec_partial env hord fuel scripts hkf 0 {} {} sim_empty
+  ⟨h.1.globals id k, h.1.store⟩
+
+/-- the environment of the witness: one plain module `m0` -/
+def dotEnv : Env := { goMods := [], dirs := [[("m0", .code [.plain (.bind "x" 1)])]] }
+
+/-- **C19-K01 witness**: `import m0.x`.  Python imports the parent `m0` first (its body runs and it
+stays in `sys.modules`) and then fails because `m0` is not a package; gpython looks for the file
+`m0/x.py` only: `m0` is never loaded.  Both raise ImportError, the final stores differ. -/
+theorem model_refines_spec_witness :
+    kfDotted dotEnv [[.tried (.imp "m0.x")]] = true ∧
+    (runScripts dotEnv (fuelFor dotEnv) [[.tried (.imp "m0.x")]] 0 {}).1.store.get "m0" = none ∧
+    (Spec.runScripts dotEnv (fuelFor dotEnv) [[.tried (.imp "m0.x")]] 0 {}).1.sysModules.get "m0" = some 1 := by
+  decide
+
+/-- **Fuel monotonicity**: an import that did not run out of fuel is unchanged by one more unit … -/
+theorem fuel_monotone (env : Env) (fuel : Nat) (name : String) (st : St)
+    (h : (importModule env fuel name st).2 ≠ .error .fuel) :
+    importModule env (fuel + 1) name st = importModule env fuel name st :=
+  importModule_mono env fuel name st h
+
+/-- **Fuel independence**: with at least `fuelFor env` units of fuel the whole run – final state
+(heap, store, trace) and every script result – does not depend on the amount of fuel. -/
+theorem fuel_independent (env : Env) (f1 f2 : Nat) (h1 : fuelFor env ≤ f1) (h2 : fuelFor env ≤ f2)
+    (scripts : List Body) (i : Nat) (st : St) :
+    runScripts env f1 scripts i st = runScripts env f2 scripts i st := by
+  have key : ∀ f, fuelFor env ≤ f → importModule env f = importModule env (fuelFor env) := by
+    intro f hf
+    obtain ⟨d, rfl⟩ := Nat.exists_eq_add_of_le hf
+    exact importModule_fuel_indep env d
+  have run : ∀ f, fuelFor env ≤ f → ∀ scripts i st,
+      runScripts env f scripts i st = runScripts env (fuelFor env) scripts i st := by
+    intro f hf scripts
+    induction scripts with
+    | nil => intro i st; rfl
+    | cons b rest ih => intro i st; simp only [runScripts, runScript, key f hf, ih]
+  rw [run f1 h1, run f2 h2]
+
+/-- **Star import, frame** (the rest of `star_binds_exactly`): whatever `from m import *` does – also
+when it fails half way through `__all__` – it changes nothing but the importer's namespace: store,
+trace, number of module objects, every module's name and every OTHER module's namespace are
+untouched, and in the importer's namespace every name the rule does not select keeps its value. -/
+theorem star_frame (env : Env) (hord : ∀ l k, k ∈ env.ord l ↔ k ∈ l) (src : Dict Val) (cur : Nat) (st : St) :
+    let st' := (importStar env src cur st).1
+    st'.store = st.store ∧ st'.trace = st.trace ∧ st'.heap.length = st.heap.length ∧
+    (∀ j, (st'.heap.getD j default).name = (st.heap.getD j default).name) ∧
+    (∀ j, j ≠ cur → st'.heap.getD j default = st.heap.getD j default) ∧
+    (∀ k, k ∉ starSpecNames src → (st'.globalsOf cur).get k = (st.globalsOf cur).get k) := by
+  intro st'
+  have ho := importStar_onlyNs env src cur st
+  refine ⟨ho.1, ho.2.1, ho.2.2.1, ho.2.2.2.1, ho.2.2.2.2, ?_⟩
+  intro k hk
+  show ((importStar env src cur st).1.globalsOf cur).get k = _
+  unfold importStar
+  unfold starSpecNames at hk
+  split
+  · next l hl =>
+    rw [hl] at hk
+    exact starAll_untouched src cur l st k hk
+  · rfl
+  · next hnone =>
+    rw [hnone] at hk
+    rw [starPlain_globals]
+    have : ¬ (cur = cur ∧ cur < st.heap.length ∧ k ∈ env.ord src.keys ∧ k.startsWith "_" = false ∧ (src.get k).isSome) := by
+      intro ⟨_, _, h3, h4, _⟩
+      apply hk
+      simp only [List.mem_filter, Bool.not_eq_eq_eq_not, Bool.not_true]
+      exact ⟨(hord _ _).mp h3, h4⟩
+    rw [if_neg this]
+
+/-! ### the ORDER of effects, regenerated from the Go source by `extract/importorder` -/
+
+/-- **Tie obligation**: the effects on the module store that `extract/importorder` read off
+`NewModule`, `ModuleInit`, `RunCode` and `ImportModuleLevelObject` are, in this order: register the
+new module, run its code, un-register it when the code failed.  Moving `store.modules[name] = m`
+behind `RunCode` (or dropping `removeModule`) changes `Generated.orders` and breaks this proof and
+with it every `…_generated` theorem below. -/
+theorem generated_order_is_canonical : Generated.orders = canonicalOrders := by decide
+
+/-- the model the driver runs – the machinery parameterised by the regenerated order – is the
+hand-written model all theorems of this file are about -/
+theorem generated_model_eq (env : Env) (fuel : Nat) :
+    importModuleO Generated.orders env fuel = importModule env fuel ∧
+    ∀ scripts i st, runScriptsO Generated.orders env fuel scripts i st = runScripts env fuel scripts i st := by
+  rw [generated_order_is_canonical]
+  exact ⟨importModuleO_canonical env fuel, runScriptsO_canonical env fuel⟩
+
+/-- `import_terminates` over the model with the regenerated order -/
+theorem import_terminates_generated (env : Env) (scripts : List Body) (i : Nat) (st : St) :
+    ∀ r ∈ (runScriptsO Generated.orders env (fuelFor env) scripts i st).2, r ≠ .error .fuel := by
+  rw [(generated_model_eq env (fuelFor env)).2]
+  exact import_terminates env scripts i st
+
+/-- `body_runs_once` over the model with the regenerated order -/
+theorem body_runs_once_generated (env : Env) (fuel : Nat) (scripts : List Body) (id : Nat) :
+    ranCountId id (runScriptsO Generated.orders env fuel scripts 0 {}).1.trace ≤ 1 := by
+  rw [(generated_model_eq env fuel).2]
+  exact body_runs_once env fuel scripts id
+
+/-- `cycle_sees_partial_module` over the model with the regenerated order: the state in which the
+first statement of a module's code runs (`runEffects` after the effects that precede `runCode`)
+already holds the new object in the store, and an import of the name from inside the (transitive)
+body is a cache hit on it -/
+theorem cycle_sees_partial_module_generated (env : Env) (fuel f2 : Nat) (name : String) (g0 : Dict Val) (st : St)
+    (cur : Nat) (pre : Body) :
+    let s0 := (newSt st name g0).emit (.ran st.heap.length name)
+    let s1 := (execBody env (importModuleO Generated.orders env f2) cur pre s0).1
+    importModuleO Generated.orders env fuel name s1 = (s1.emit (.hit st.heap.length name), .ok st.heap.length) := by
+  rw [(generated_model_eq env fuel).1, (generated_model_eq env f2).1]
+  exact cycle_sees_partial_module env fuel f2 name g0 st cur pre
+
+/-- the order with registration AFTER the code has run (what a refactoring of `ModuleInit` that
+creates the module, runs it and only then stores it would give) -/
+def swappedOrders : Orders :=
+  { moduleInit := [.runCode, .register],
+    importGo := [.runCode, .register, .unregister],
+    importFile := [.runCode, .register, .unregister] }
+
+/-- the smallest cyclic graph: `m0` imports itself -/
+def selfEnv : Env := { goMods := [], dirs := [[("m0", .code [.plain (.imp "m0")])]] }
+
+/-- **Witness: the order matters.**  With the swapped order the import of the self-importing module
+`m0` does not terminate: for EVERY amount of fuel `n` the model runs out of fuel, and the body of `m0`
+has been started `n` times (so more than once as soon as `n ≥ 2`), whereas with the regenerated
+order one unit of fuel suffices and the body starts exactly once. -/
+theorem order_swapped_witness (n : Nat) (st : St) (h : st.store.get "m0" = none) :
+    (importModuleO swappedOrders selfEnv n "m0" st).2 = .error .fuel ∧
+    ranCount "m0" (importModuleO swappedOrders selfEnv n "m0" st).1.trace = ranCount "m0" st.trace + n ∧
+    (importModuleO swappedOrders selfEnv n "m0" st).1.store.get "m0" = none := by
+  induction n generalizing st with
+  | zero => simp [importModuleO, h]
+  | succ n ih =>
+    have hres : resolve selfEnv.dirs 0 "m0" = some ("d0/m0.py", .code [.plain (.imp "m0")]) := by decide
+    have hgo : selfEnv.goMods.get "m0" = none := rfl
+    unfold importModuleO
+    simp only [h, hgo, hres, show swappedOrders.importFile = [.runCode, .register, .unregister] from rfl,
+      loadO, runEffects, execBody, execStmt, execSimple]
+    have := ih (({ st with heap := st.heap ++ [({ name := "m0", g := initGlobals "m0" (some "d0/m0.py") {} } : ModObj)] } : St).emit
+      (.ran st.heap.length "m0")) (by simpa using h)
+    obtain ⟨h1, h2, h3⟩ := this
+    generalize importModuleO _ selfEnv n "m0" _ = r at h1 h2 h3 ⊢
+    obtain ⟨st1, res⟩ := r
+    simp only at h1 h2 h3
+    subst h1
+    simp only [emit_trace, ranCount_append] at h2
+    refine ⟨by simp, ?_, by simp [Dict.get_erase]⟩
+    simp at h2 ⊢
+    rw [ranCount_append]
+    simp only [Nat.add_zero]
+    omega
+
+example : (runScriptsO swappedOrders selfEnv 5 [[.plain (.imp "m0")]] 0 {}).2.map renderRes = ["FUEL"] ∧
+    ranCount "m0" (runScriptsO swappedOrders selfEnv 5 [[.plain (.imp "m0")]] 0 {}).1.trace = 5 := by decide
+example : (runScriptsO Generated.orders selfEnv 1 [[.plain (.imp "m0")]] 0 {}).2.map renderRes = ["ok"] ∧
+    ranCount "m0" (runScriptsO Generated.orders selfEnv 1 [[.plain (.imp "m0")]] 0 {}).1.trace = 1 := by decide
+
+/-- non-vacuity of the refinement theorem's hypotheses on the cyclic graph with a failing module -/
+example : kfDotted exEnv [[.plain (.imp "m0"), .plain (.impAs "m0" "again"), .tried (.imp "m1")]] = false := by decide
+/-- the corrected reference interpreter reads `from m import x as y, y as z` attribute by attribute -/
+example :
+    let env : Env := { goMods := [], dirs := [[("m0", .code [.plain (.bind "x" 1), .plain (.from_ "m0" [("x", "y"), ("y", "z")])])]] }
+    ((Spec.runScripts env 3 [[.plain (.imp "m0")]] 0 {}).1.ns 1).get "z" = some (.int 1) := by decide
 
 end GPy.C19
